@@ -155,11 +155,16 @@ def tx_class(p, mode, bip144):
 def check_tx_record(rec, sym):
     """Execute one case printed by MC_TxWireReplay on pycoin; returns [(key, what, detail)]."""
     fails = []
+    mode = rec["mode"]
+    if mode == "ltcmweb" and sym != "LTC":
+        return fails          # Litecoin's MWEB-flagged form is outside the Bitcoin dialect
     Tx = network(sym).tx
     p = abs_tx(rec["tx"])
-    mode = rec["mode"]
     cls = tx_class(p, mode, rec["bip144"])
     want_bytes = expand(rec["bytes"])
+    # what re-serialising the parsed object must give (the input itself, except where the implementation
+    # cannot represent something the input carries: the MWEB marker)
+    want_reser = want_bytes if seq(rec.get("reser", ["=bytes"])) == ["=bytes"] else expand(rec["reser"])
     want_stripped = expand(rec["stripped"])
     same = rec["parsed"]["same"]
     want_parsed = p if same == "tx" else strip_wit(p) if same == "stripped" else abs_tx(rec["parsed"]["tx"])
@@ -231,6 +236,10 @@ def check_tx_record(rec, sym):
                    ("parse", lambda: _parse_all(Tx, want_bytes, None))]
         if sym == "BTC":
             parsers.append(("parse(allow_segwit=True)", lambda: _parse_all(Tx, want_bytes, True)))
+    elif mode == "ltcmweb":
+        parsers = [("from_bin", lambda: Tx.from_bin(want_bytes)),
+                   ("from_hex", lambda: Tx.from_hex(want_bytes.hex())),
+                   ("parse", lambda: _parse_all(Tx, want_bytes, None))]
     elif mode == "noseg":
         parsers = [("from_bin", lambda: Tx.from_bin(want_bytes))]
         if sym == "BTC":
@@ -266,7 +275,7 @@ def check_tx_record(rec, sym):
             if project_unspents(t2) != ():
                 fail(call, "unspents-invented")
             ok, b2 = guarded("as_bin", t2.as_bin)
-            if ok and b2 != want_bytes:
+            if ok and b2 != want_reser:
                 fail(call + "+as_bin", "reserialised-bytes-differ")
             ok, got = guarded("hash", t2.hash)
             if ok and got != txid:
